@@ -544,6 +544,80 @@ static inline uint64_t vk_put_u32s(uint8_t* out, uint64_t cap, std::u32string_vi
   for (uint64_t i = 0; i < k; i++) vk_put_u32(out + 4 * i, uint32_t(s[i]));
   return s.size();
 }
+// ---------------------------------------------------------------- NFC kernels over MODEL tables (C06 / C16)
+// The Unicode tables are data (a DEFLATE blob inflated at run time); the algorithms around them are what the solver
+// checks, for EVERY table content: the harness supplies the tables inside `in` and the wrapper points the library's table
+// pointers at them.  Layout of `in` (all offsets multiples of 4): 0 code points u32[8] ; 32 ccc_index[216] ;
+// 248 ccc_block[2][256] ; 760 composition_index[216] ; 976 composition_block u16[2][257] ; 2004 composition_data u32[12] ;
+// 2052 decomposition_index[216] ; 2268 decomposition_block u16[2][257] ; 3296 (end).
+#define VK_NFC_IN_SIZE 3296
+static void vk_nfc_install(const uint8_t* in) {
+  using namespace ada::idna;
+  ccc_index = in + 32; ccc_block_flat = in + 248;
+  composition_index = in + 760; composition_block_flat = reinterpret_cast<const uint16_t*>(in + 976);
+  composition_data = reinterpret_cast<const char32_t*>(in + 2004);
+  decomposition_index = in + 2052; decomposition_block_flat = reinterpret_cast<const uint16_t*>(in + 2268);
+  tables_init_state.store(kTablesReady, std::memory_order_release);
+}
+// A std::u32string that works IN PLACE on the caller's buffer (capacity 8): no construction copy, so that the solver
+// sees typed accesses to one array.  Detached again before the destructor runs.
+struct vk_u32_inplace {
+  std::u32string s;
+  vk_u32_inplace(const uint8_t* in, uint64_t n) {
+    s._M_dataplus._M_p = reinterpret_cast<char32_t*>(const_cast<uint8_t*>(in));
+    s._M_string_length = n;
+    s._M_allocated_capacity = 8;
+  }
+  ~vk_u32_inplace() { s._M_dataplus._M_p = s._M_local_buf; s._M_string_length = 0; }
+};
+// p0 = number of code points (<= 7, in place in in[0..32)), p1 & 1 = 0 sort_marks / 1 compose, p1 & 2: the tables are
+// already installed (the solver harness points the table pointers at typed arrays of its own);
+// returns new length | would_compose << 32 ; out = the resulting code points (u32 LE)
+VK(nfc_kernel) {
+  UNUSED;
+  if (!(p1 & 2)) vk_nfc_install(in);
+  uint64_t would = 0, len;
+  {
+    vk_u32_inplace w(in, p0);
+    if ((p1 & 1) == 0) ada::idna::sort_marks(w.s);
+    else { would = ada::idna::would_compose(w.s); ada::idna::compose(w.s); }
+    len = w.s.size();
+  }
+  const char32_t* r = reinterpret_cast<const char32_t*>(in);
+  for (uint64_t i = 0; i < len && 4 * i + 4 <= cap; i++) vk_put_u32(out + 4 * i, r[i]);
+  return len | (would << 32);
+}
+// the "already NFC" shortcut against the pieces of the full pipeline: bit0 is_already_nfc, bit1 would_compose,
+// bit2 marks are not in canonical order (sort_marks would move one), bit3 some code point has a singleton decomposition
+VK(nfc_quick) {
+  UNUSED;
+  if (!(p1 & 2)) vk_nfc_install(in);
+  std::u32string_view s(reinterpret_cast<const char32_t*>(in), p0);
+  uint64_t r = ada::idna::is_already_nfc(s) ? 1 : 0;
+  if (ada::idna::would_compose(s)) r |= 2;
+  for (char32_t c : s) if (ada::idna::canonical_decomp_length(c) == 1) r |= 8;
+  return r;
+}
+// real tables: NFC of a code point string (u32 LE in, u32 LE out) ; domain-to-ASCII as the WPT runners call it
+VK(nfc_real) {
+  UNUSED;
+  std::u32string s(n / 4, U'\0');
+  memcpy(s.data(), in, 4 * (n / 4));
+  if (!ada::idna::normalize(s)) return ~0ull;
+  if (4 * s.size() > cap) return ~0ull;
+  memcpy(out, s.data(), 4 * s.size());
+  return s.size();
+}
+VK(to_ascii_vec) {
+  UNUSED;
+  std::optional<std::string> o;
+  std::string_view input = SV;
+  ada::unicode::to_ascii(o, input, input.find('%'));
+  if (!o.has_value()) return 1ull << 32;
+  if (o->size() > cap) return ~0ull;
+  memcpy(out, o->data(), o->size());
+  return o->size();
+}
 VK(puny_verify) { UNUSED; return ada::idna::verify_punycode(SV); }
 // returns ok | count<<8 ; out = decoded code points (LE32)
 VK(puny_decode) {
